@@ -481,7 +481,10 @@ def main(tier):
         keep = [b for b in behs if b["result"] != "ok" and len(b["ops"]) >= 2]
         rest = [b for b in behs if not (b["result"] != "ok" and len(b["ops"]) >= 2)]
         rnd.shuffle(rest)
-        chosen = keep[:40000] + rest[:15000]
+        # a seeded sample, never a prefix of the sorted list (the sort key starts with the cause: a prefix
+        # would drop whole classes - interrupted undo, failing inverse - as the model grows)
+        rnd.shuffle(keep)
+        chosen = keep[:70000] + rest[:15000]
         items = [(b, nv) for b in chosen for nv in nest_variants(b, rnd)]
     else:
         cap = 450000
@@ -534,7 +537,8 @@ def main(tier):
         print("NOTE conformance differences with the model (not property failures):", conf_mismatch)
     code = verdict.finish()
     common.write_evidence(PROP, tier, "model_checking", {
-        "states": res.distinct, "transitions": res.generated,
+        "states": res.distinct + resf.distinct, "transitions": res.generated + resf.generated,
+        "full_history_run": {**resf.summary(), "behaviours": len(full_behs)},
         "traces_validated_against_impl": replayed,
         "samples": samples,
         "exhaustive": False,
